@@ -51,6 +51,13 @@ def make_L(rng, kind):
         s = np.abs(np.linalg.eigvalsh((L0 + L0.T) / 2)).max()
         L0, L1 = L0 / s, L1 / s * 0.5
         return (lambda t, x: L0 + np.sin(2.0 * t) * L1 + 0.3 * x[0] * L1), L0
+    if kind == "fastosc":
+        # rapidly oscillating history: one update needs thousands of internal solver steps
+        L0 = rng.normal(size=(3, 3)); L0 -= np.trace(L0) / 3 * np.eye(3)
+        L1 = rng.normal(size=(3, 3)); L1 -= np.trace(L1) / 3 * np.eye(3)
+        s = np.abs(np.linalg.eigvalsh((L0 + L0.T) / 2)).max()
+        L0, L1 = L0 / s, L1 / s * 0.5
+        return (lambda t, x: L0 + np.sin(300.0 * t) * L1), L0
     raise ValueError(kind)
 
 
@@ -66,6 +73,14 @@ def make_texture(rng, n, kind):
     elif kind == "girdle":
         from scipy.spatial.transform import Rotation as R
         O = np.array([R.from_euler("z", rng.uniform(0, 2 * np.pi)).as_matrix() for _ in range(n)])
+    elif kind == "axis":
+        # axis-aligned grains: proper signed permutation matrices (integer-valued entries)
+        O = np.empty((n, 3, 3))
+        for g in range(n):
+            P = np.eye(3)[rng.permutation(3)] * rng.choice([-1.0, 1.0], size=3)[:, None]
+            if np.linalg.det(P) < 0:
+                P[0] = -P[0]
+            O[g] = P
     else:
         raise ValueError(kind)
     return np.clip(O, -1.0, 1.0)  # generated inputs are themselves valid snapshots (entries in [-1, 1])
@@ -87,12 +102,12 @@ def scenario(seed, idx):
     rng = np.random.default_rng([seed, idx])
     ph, fb = PAIRS[idx % 6]
     regime = 4 if (idx // 6) % 3 else 6
-    kinds = ["simple", "pure", "axisym", "general", "timedep", "trace", "staged"]
-    lk = kinds[(idx // 2) % 7] if idx % 5 else kinds[rng.integers(7)]
+    kinds = ["simple", "pure", "axisym", "general", "timedep", "trace", "staged", "fastosc"]
+    lk = kinds[(idx // 2) % 8] if idx % 5 else kinds[rng.integers(8)]
     n = int(rng.choice([2, 16, 40]))
-    tex = ["random", "clustered", "girdle", "single"][rng.integers(4)]
+    tex = ["random", "clustered", "girdle", "single", "axis"][rng.integers(5)]
     fk = ["uniform", "skewed", "dominant"][rng.integers(3)]
-    parts = int(rng.choice([1, 3, 10])) if lk != "staged" else 10
+    parts = int(rng.choice([1, 3, 10])) if lk not in ("staged", "fastosc") else (10 if lk == "staged" else 1)
     params = dict(stress_exponent=float(rng.choice([1.5, 1.0, 2.0])), deformation_exponent=float(rng.choice([3.5, 2.0, 5.0, 3.0])),
                   nucleation_efficiency=float(rng.choice([5.0, 0.0, 10.0])), gbm_mobility=float(rng.choice([125, 0, 10, 200])),
                   gbs_threshold=float(rng.choice([0.3, 0.0, 0.9, 0.5])))
@@ -122,8 +137,20 @@ def build(sc):
         params["phase_fractions"] = (1.0,)
 
     def mineral():
+        # the same texture handed over in different memory layouts / dtypes (the values are identical)
+        O_in, v9 = O.copy(), sc["idx"] % 9
+        if v9 == 4:
+            O_in = np.asfortranarray(O_in)
+        elif v9 == 6:
+            big = np.zeros((sc["n"], 3, 6))
+            big[:, :, ::2] = O
+            O_in = big[:, :, ::2]  # non-contiguous view
+        elif v9 == 8 and sc["texture"] == "axis":
+            O_in = O.astype(np.int64)  # integer-valued orientations typed as integers
+        elif v9 == 2:
+            O_in = O.transpose(1, 2, 0).copy().transpose(2, 0, 1)  # (n,3,3) view of a (3,3,n) stack
         return pydrex.Mineral(phase=core.MineralPhase(sc["phase"]), fabric=core.MineralFabric(sc["fabric"]), regime=core.DeformationRegime(sc["regime"]),
-                              n_grains=sc["n"], fractions_init=f.copy(), orientations_init=O.copy())
+                              n_grains=sc["n"], fractions_init=f.copy(), orientations_init=O_in)
 
     v = rng.normal(size=3) * 0.1
 
@@ -227,6 +254,19 @@ def run_scenarios(seed, start, count, clauses):
                 rel = np.abs(F - Fref).max() / max(1e-12, np.abs(Fref).max())
                 if not np.isfinite(rel) or rel > tol:
                     msgs.append(f"returned F differs from the solution of dF/dt = L F by {rel:.3e} (> {tol:.3e})")
+            acc = None
+            if ("C05" in clauses and sc["L_kind"] in ("staged", "fastosc")) or ("C04" in clauses and sc["L_kind"] != "staged"):
+                # how accurate is the default-tolerance integration of THIS scenario?  (LSODA runs with atol = 1e-4 + 1e-6 |y|;
+                # grain-boundary migration with a large mobility amplifies solver errors.)  Two integrations of equivalent
+                # problems cannot be expected to agree better than a few times the distance of the default run from a run with
+                # tolerances tightened a thousandfold.
+                mr = b["mineral"]()
+                y_scale = 1e-9
+                Fr = drive(mr, params, b["F0"], b["get_L"], b["get_pos"], b["times"], rtol=1e-9, atol=y_scale)
+                acc = max(np.abs(np.asarray(mr.orientations[-1]) - np.asarray(m.orientations[-1])).max(), np.abs(np.asarray(mr.fractions[-1]) - np.asarray(m.fractions[-1])).max() * n,
+                          np.abs(Fr - F).max() / max(1e-12, np.abs(F).max()))
+                if not np.isfinite(acc):
+                    acc = None
             if "C05" in clauses:
                 for k in (1e-15, 1e3) if idx % 2 else (1e-9, 1e-4):
                     m2 = b["mineral"]()
@@ -237,8 +277,9 @@ def run_scenarios(seed, start, count, clauses):
                             np.abs(F2 - F).max() / max(1e-12, np.abs(F).max()))
                     # rounding level for smooth histories; a history that is discontinuous in time (staged) is only reproduced within
                     # the solver tolerance, because k*(t/k) != t in floating point moves the step sequence across the jumps
-                    if not np.isfinite(d) or d > (1e-6 if sc["L_kind"] != "staged" else 5e-3):
-                        msgs.append(f"rate scaling k={k:g}: textures/F differ by {d:.3e}")
+                    tol5 = 1e-6 if sc["L_kind"] not in ("staged", "fastosc") else max(5e-3, 10 * (acc or 0.0))
+                    if not np.isfinite(d) or d > tol5:
+                        msgs.append(f"rate scaling k={k:g}: textures/F differ by {d:.3e} (> {tol5:.1e}; accuracy of the default-tolerance run {acc})")
             if "C04" in clauses and sc["L_kind"] != "staged":
                 # (staged histories contain a rigid-rotation stage: in a rotated frame its strain rate is rounding noise instead of
                 #  exactly zero and the normalisation by the maximum strain rate is ill-conditioned -- see DESIGN, C04 limitations)
@@ -250,9 +291,9 @@ def run_scenarios(seed, start, count, clauses):
                 dO = np.abs(np.asarray(m3.orientations[-1]) - np.asarray(m.orientations[-1]) @ Q.T).max()
                 df = np.abs(np.asarray(m3.fractions[-1]) - np.asarray(m.fractions[-1])).max() * n
                 dF = np.abs(F3 - Q @ F).max() / max(1e-12, np.abs(F).max())
-                tol = 2e-2
+                tol = max(2e-2, 10 * (acc or 0.0))
                 if max(dO, df, dF) > tol or not np.isfinite(max(dO, df, dF)):
-                    msgs.append(f"frame rotation: orientations {dO:.2e}, fractions {df:.2e}, F {dF:.2e} (> {tol})")
+                    msgs.append(f"frame rotation: orientations {dO:.2e}, fractions {df:.2e}, F {dF:.2e} (> {tol:.1e}; accuracy of the default-tolerance run {acc})")
                 # two-fold relabelling of a subset of grains
                 Sg = np.diag([[1, -1, -1], [-1, 1, -1], [-1, -1, 1]][idx % 3]).astype(float)
                 sub = np.arange(n) % 2 == 0
@@ -263,7 +304,7 @@ def run_scenarios(seed, start, count, clauses):
                 dO = np.abs(np.asarray(m4.orientations[-1]) - Oe).max()
                 df = np.abs(np.asarray(m4.fractions[-1]) - np.asarray(m.fractions[-1])).max() * n
                 if max(dO, df) > tol or not np.isfinite(max(dO, df)):
-                    msgs.append(f"two-fold relabelling: orientations {dO:.2e}, fractions {df:.2e} (> {tol})")
+                    msgs.append(f"two-fold relabelling: orientations {dO:.2e}, fractions {df:.2e} (> {tol:.1e})")
             if "C08" in clauses and sc["two_phase"]:
                 pa, pf = params["phase_assemblage"], params["phase_fractions"]
                 # (a) permuting assemblage and fractions together
